@@ -12,6 +12,7 @@ import (
 	"strings"
 	"sync/atomic"
 	"testing"
+	"time"
 
 	"github.com/ethereum/go-ethereum/common"
 	"github.com/ethereum/go-ethereum/consensus/misc/eip1559"
@@ -53,8 +54,19 @@ type bpWorld struct {
 	puts       int
 	faultFired bool
 
+	liveQ, liveL map[uint64]blobpool.VerifStoreEntry // what the two stores hold, from the store events
+
 	log simcore.Hash64
 }
+
+func (w *bpWorld) timing(k string, t0 time.Time) {
+	if timingOn {
+		w.res.Probes["wall-ms:"+k] += int(time.Since(t0).Milliseconds())
+		w.res.Probes["wall-n:"+k]++
+	}
+}
+
+var timingOn = os.Getenv("POOLSIM_TIMING") != ""
 
 func (w *bpWorld) logf(format string, a ...any) {
 	s := fmt.Sprintf(format, a...)
@@ -100,8 +112,11 @@ func (w *bpWorld) takeImage() {
 	w.res.Fault("image-taken")
 }
 
-// hook observes every mutation of the two billy stores.
-func (w *bpWorld) hook(store, op string, phase int, id uint64, size int) error {
+// hook observes every mutation of the two billy stores and keeps the harness'
+// own record of what they hold (billy's iterator is too expensive to run after
+// every operation; the record is compared with it at every reopening and at the
+// end of the run).
+func (w *bpWorld) hook(store, op string, phase int, e blobpool.VerifStoreEntry) error {
 	if phase == 0 {
 		if store == "queue" && op == "put" {
 			w.puts++
@@ -113,12 +128,64 @@ func (w *bpWorld) hook(store, op string, phase int, id uint64, size int) error {
 		}
 		return nil
 	}
+	m := w.liveQ
+	if store == "limbo" {
+		m = w.liveL
+	}
+	if op == "put" {
+		m[e.ID] = e
+	} else {
+		delete(m, e.ID)
+	}
 	w.events++
 	w.res.Events++
 	if w.imageAt > 0 && !w.imageTaken && w.events == w.imageAt {
 		w.takeImage()
 		w.res.Fault("crash-inside-operation:" + store + "-" + op)
 	}
+	return nil
+}
+
+// initStoreRecord starts the record from what Init indexed (the stores are not
+// iterated here: billy allocates a slot-sized buffer per shelf for that, some
+// 30 MB per pass).
+func (w *bpWorld) initStoreRecord() {
+	snap := w.pool.VerifSnapshot()
+	w.liveQ, w.liveL = map[uint64]blobpool.VerifStoreEntry{}, map[uint64]blobpool.VerifStoreEntry{}
+	for _, a := range snap.Accounts {
+		for _, m := range a.Txs {
+			w.liveQ[m.ID] = blobpool.VerifStoreEntry{ID: m.ID, Size: m.StorageSize, Hash: m.Hash}
+		}
+	}
+	for _, e := range snap.Limbo {
+		w.liveL[e.ID] = blobpool.VerifStoreEntry{ID: e.ID, Hash: e.TxHash, Block: e.Block}
+	}
+}
+
+// verifyStores reads both stores through billy's own iterator and evaluates the
+// store == index clauses on what is really there (done before every Close and at
+// the end of the run; in between the record kept from the store events is used).
+func (w *bpWorld) verifyStores() *simcore.Violation {
+	q, l, err := w.pool.VerifLiveEntries()
+	if err != nil {
+		simcore.Harnessf("iterate stores: %v", err)
+	}
+	o := w.observe()
+	o.queue, o.limbo = q, l
+	if v := w.checkLive(o); v != nil {
+		v.Msg = "reading the stores back through billy: " + v.Msg
+		return v
+	}
+	// the pool agrees with the stores; the event record must, too
+	if len(q) != len(w.liveQ) || len(l) != len(w.liveL) {
+		simcore.Harnessf("store record out of step with billy: queue %d vs %d recorded, limbo %d vs %d recorded", len(q), len(w.liveQ), len(l), len(w.liveL))
+	}
+	for _, e := range q {
+		if r, ok := w.liveQ[e.ID]; !ok || r.Hash != e.Hash {
+			simcore.Harnessf("store record out of step with billy at queue id %d", e.ID)
+		}
+	}
+	w.res.Probe("stores-read-back")
 	return nil
 }
 
@@ -133,6 +200,7 @@ func (w *bpWorld) openPool() {
 	pool.VerifWrapStores(w.hook)
 	w.pool = pool
 	w.poolHead = head
+	w.initStoreRecord()
 }
 
 type bpInitError struct{ err error }
@@ -187,7 +255,9 @@ func runBP(t *testing.T, pl any) *simcore.Result {
 				panic(r)
 			}
 		}()
+		t0 := time.Now()
 		w.openPool()
+		w.timing("first-open", t0)
 		viol = w.run()
 	}()
 	for k, n := range logErrs.snapshot() {
@@ -216,11 +286,14 @@ type bpObs struct {
 
 func (w *bpWorld) observe() *bpObs {
 	o := &bpObs{snap: w.pool.VerifSnapshot(), index: map[common.Hash]bool{}, byAcct: map[common.Address][]blobpool.VerifMeta{}, limboIx: map[common.Hash]uint64{}}
-	var err error
-	o.queue, o.limbo, err = w.pool.VerifLiveEntries()
-	if err != nil {
-		simcore.Harnessf("iterate stores: %v", err)
+	for _, e := range w.liveQ {
+		o.queue = append(o.queue, e)
 	}
+	for _, e := range w.liveL {
+		o.limbo = append(o.limbo, e)
+	}
+	sort.Slice(o.queue, func(i, j int) bool { return o.queue[i].ID < o.queue[j].ID })
+	sort.Slice(o.limbo, func(i, j int) bool { return o.limbo[i].ID < o.limbo[j].ID })
 	for _, a := range o.snap.Accounts {
 		o.byAcct[a.Addr] = a.Txs
 		for _, m := range a.Txs {
@@ -356,6 +429,7 @@ type bpInfo struct {
 	included  map[common.Hash]uint64 // head/reorg: hash -> block number on the adopted branch
 	newHead   *simBlock
 	restarted bool
+	viol      *simcore.Violation
 }
 
 func (w *bpWorld) run() *simcore.Violation {
@@ -368,14 +442,22 @@ func (w *bpWorld) run() *simcore.Violation {
 		B := o
 		w.events, w.puts, w.imageTaken, w.faultFired = 0, 0, false, false
 		w.imageAt, w.failPut = op.ImageAt, op.FailPut
+		t0 := time.Now()
 		info := w.apply(op, B)
+		w.timing("op:"+op.Kind, t0)
+		if info.viol != nil {
+			info.viol.Msg = fmt.Sprintf("before op %d (%s): %s", i, op.Kind, info.viol.Msg)
+			return info.viol
+		}
 		crash := op.ImageAt > 0
 		if crash && !w.imageTaken {
 			w.takeImage()
 			w.res.Fault("crash-at-operation-boundary")
 		}
 		w.imageAt, w.failPut = 0, 0
+		t0 = time.Now()
 		A := w.observe()
+		w.timing("observe", t0)
 		var es []string
 		for _, e := range info.errs {
 			es = append(es, bpErrClass(e))
@@ -401,7 +483,9 @@ func (w *bpWorld) run() *simcore.Violation {
 		}
 		o = A
 		if crash {
+			t0 = time.Now()
 			R, v := w.reboot(B, A)
+			w.timing("reboot", t0)
 			if v != nil {
 				v.Msg = fmt.Sprintf("dirty restart from the image taken during op %d (%s, after store event %d of %d): %s", i, op.Kind, min(op.ImageAt, w.events), w.events, v.Msg)
 				return v
@@ -410,7 +494,7 @@ func (w *bpWorld) run() *simcore.Violation {
 			o = R
 		}
 	}
-	return nil
+	return w.verifyStores()
 }
 
 func bpContent(o *bpObs, accts []*account) string {
@@ -446,6 +530,10 @@ func (w *bpWorld) apply(op *BPOp, B *bpObs) *bpInfo {
 		w.applyHead(op, B, info)
 	case "restart":
 		if op.ImageAt == 0 {
+			if v := w.verifyStores(); v != nil {
+				info.viol = v
+				return info
+			}
 			if err := w.pool.Close(); err != nil {
 				simcore.Harnessf("close: %v", err)
 			}
@@ -1139,11 +1227,20 @@ func (w *bpWorld) reboot(B, A *bpObs) (*bpObs, *simcore.Violation) {
 			continue
 		}
 		seen[e.Hash] = true
-		var ptx blobpool.BlobTxForPool
-		if err := rlp.DecodeBytes(e.Data, &ptx); err != nil {
+		// only the transaction is needed, not the cell payload behind it
+		elems, err := rlp.SplitListValues(e.Data)
+		if err != nil || len(elems) < 2 {
 			simcore.Harnessf("decode image entry: %v", err)
 		}
-		r := w.rtxOf(ptx.Tx, e.Size)
+		content, _, err := rlp.SplitString(elems[0])
+		if err != nil {
+			simcore.Harnessf("decode image entry: %v", err)
+		}
+		stx := new(types.Transaction)
+		if err := stx.UnmarshalBinary(content); err != nil {
+			simcore.Harnessf("decode image transaction: %v", err)
+		}
+		r := w.rtxOf(stx, e.Size)
 		per[r.from] = append(per[r.from], r)
 	}
 	expected := map[common.Address][]rtx{}
